@@ -16,7 +16,7 @@ GOVC = os.path.join(VERIF, "bin", "govc")
 ENV = dict(os.environ, GOFLAGS="-mod=mod", GOPROXY="off", GOSUMDB="off", GOTOOLCHAIN="local")
 
 def sh(cmd, cwd, timeout=1800):
-    p = subprocess.run(cmd, cwd=cwd, shell=True, capture_output=True, text=True, env=ENV, timeout=timeout)
+    p = subprocess.run(cmd, cwd=cwd, shell=True, capture_output=True, text=True, errors="replace", env=ENV, timeout=timeout)
     return p.returncode, p.stdout + p.stderr
 
 def main():
@@ -33,7 +33,11 @@ def main():
     rj = os.path.join(VERIF, "seeded", "results.json")
     if os.path.exists(rj):
         prev = {r["change"]: r for r in json.load(open(rj))}
-    for d in dirs:
+    import threading
+    from concurrent.futures import ThreadPoolExecutor
+    lock = threading.Lock()
+    jobs = int(args[args.index("-j") + 1]) if "-j" in args else 1
+    def one(d):
         name = os.path.basename(d)
         meta = json.load(open(os.path.join(d, "meta.json")))
         prop = meta["property"]
@@ -46,7 +50,7 @@ def main():
             rc, out = sh("git apply " + os.path.join(d, "patch.diff"), scratch)
             if rc != 0:
                 res["status"] = "patch-does-not-apply"; res["detail"] = out[-400:]
-                print(name, res["status"]); prev[name] = res; continue
+                print(name, res["status"]); prev[name] = res; return
             rc, out = sh("go build ./...", scratch)
             res["builds"] = rc == 0
             if run_tests:
@@ -81,13 +85,23 @@ def main():
                 res["caught_by_other_properties"] = others
             res["status"] = "caught" if res["caught"] else "MISSED"
             print("%-8s %-8s tests_pass=%s demo_fails=%s %s" % (res["status"], name, res.get("tests_pass"), res["demo_fails_on_patched"], ",".join(viol[:3])))
-            prev[name] = res
+            with lock:
+                prev[name] = res
+                json.dump([prev[k] for k in sorted(prev)], open(rj, "w"), indent=1)
         finally:
             shutil.rmtree(tmp, ignore_errors=True)
+    with ThreadPoolExecutor(max_workers=jobs) as ex:
+        list(ex.map(one, dirs))
     allres = [prev[k] for k in sorted(prev)]
     json.dump(allres, open(rj, "w"), indent=1)
     if os.environ.get("SEED_FIRST_OUT"):
-        json.dump([prev[os.path.basename(d)] for d in dirs if os.path.basename(d) in prev], open(os.path.join(VERIF, "seeded", os.environ["SEED_FIRST_OUT"]), "w"), indent=1)
+        fo = os.path.join(VERIF, "seeded", os.environ["SEED_FIRST_OUT"])
+        have = {r["change"]: r for r in json.load(open(fo))} if os.path.exists(fo) else {}
+        for d in dirs:  # a first-run verdict is never overwritten
+            n = os.path.basename(d)
+            if n in prev and n not in have:
+                have[n] = prev[n]
+        json.dump([have[k] for k in sorted(have)], open(fo, "w"), indent=1)
     with open(os.path.join(VERIF, "seeded", "RESULTS.md"), "w") as f:
         f.write("# Seeded breaking changes (written by independent sub-agents from the property text)\n\n")
         f.write("Generated by tools/seed_eval.py against the current /repo and contracts.\n\n")
